@@ -73,4 +73,43 @@ theorem parseLoop_unknown_block (f : Nat) (b b' e : String) (c r : List Tok) (st
   rw [parseLoop]
   simp only [skipBlock_spec c r h e]
 
+/-- a TREES block (without translate table) inside any document: its trees are APPENDED to those of
+    earlier blocks (fix 82a8873) -/
+theorem parseLoop_trees_block (f : Nat) (b t e : String) (cs : List Cmd) (h : ∀ c ∈ cs, c.ok)
+    (hf : 2 * cs.length + 2 ≤ f) (r : List Tok) (st : PState) :
+    parseLoop (f + 1) (.kw .begin_ b :: .kw .trees t :: .endcmd :: .eol :: (cmdsToks cs ++ .kw .end_ e :: .endcmd :: r)) st =
+      parseLoop f r { st with trees := some (st.trees.getD [] ++ cs.map fun c => (c.name, c.body)) } := by
+  obtain ⟨g, rfl⟩ : ∃ g, f = g + 2 * cs.length + 2 := ⟨f - (2 * cs.length + 2), by omega⟩
+  rw [parseLoop]
+  simp only []
+  have e1 : g + 2 * cs.length + 2 = ((g + 1) + 2 * cs.length) + 1 := by omega
+  rw [e1, parseTrees, parseTrees_cmds cs h (g + 1), parseTrees]
+  simp
+
+/-- the same block for the parser BEFORE fix 82a8873: the trees of earlier blocks are overwritten -/
+theorem parseLoopPinned_trees_block (f : Nat) (b t e : String) (cs : List Cmd) (h : ∀ c ∈ cs, c.ok)
+    (hf : 2 * cs.length + 2 ≤ f) (r : List Tok) (st : PState) :
+    parseLoopPinned (f + 1) (.kw .begin_ b :: .kw .trees t :: .endcmd :: .eol :: (cmdsToks cs ++ .kw .end_ e :: .endcmd :: r)) st =
+      parseLoopPinned f r { st with trees := some (cs.map fun c => (c.name, c.body)) } := by
+  obtain ⟨g, rfl⟩ : ∃ g, f = g + 2 * cs.length + 2 := ⟨f - (2 * cs.length + 2), by omega⟩
+  rw [parseLoopPinned]
+  simp only []
+  have e1 : g + 2 * cs.length + 2 = ((g + 1) + 2 * cs.length) + 1 := by omega
+  rw [e1, parseTrees, parseTrees_cmds cs h (g + 1), parseTrees]
+  simp
+
+theorem parseTranslCom_spec (c r : List Tok) (m : List (String × String)) (h : ∀ t ∈ c, t ≠ .closebrack) :
+    parseTranslCom (c ++ .closebrack :: r) m = parseTransl r m := by
+  induction c with
+  | nil => simp [parseTranslCom]
+  | cons t c ih =>
+    have ht := h t (by simp)
+    have := ih (fun x hx => h x (by simp [hx]))
+    cases t <;> first | (exact absurd rfl ht) | (simpa [parseTranslCom] using this)
+
+/-- a comment where an entry of the TRANSLATE command could start is skipped -/
+theorem parseTransl_comment (c r : List Tok) (m : List (String × String)) (h : ∀ t ∈ c, t ≠ .closebrack) :
+    parseTransl (.openbrack :: (c ++ .closebrack :: r)) m = parseTransl r m := by
+  rw [parseTransl, parseTranslCom_spec c r m h]
+
 end Gotree.C13
